@@ -53,6 +53,7 @@ type Arm struct {
 type Case struct {
 	Default bool
 	Val     int
+	Src     string // optional source spelling of the value (a constant expression that evaluates to Val)
 	Body    []Stmt
 	Line    int
 }
@@ -212,7 +213,11 @@ func (p *printer) stmt(s *Stmt, indent int) {
 			if c.Default {
 				c.Line = p.ln(indent+1, "default:")
 			} else {
-				c.Line = p.ln(indent+1, fmt.Sprintf("case %d:", c.Val))
+				if c.Src != "" {
+					c.Line = p.ln(indent+1, "case "+c.Src+":")
+				} else {
+					c.Line = p.ln(indent+1, fmt.Sprintf("case %d:", c.Val))
+				}
 			}
 			p.block(c.Body, indent+2)
 		}
